@@ -104,4 +104,40 @@ LEVEL = {
              "stage level (both families) and through Engine::synthesize at v dB vs 0 dB (1e-12 relative), with getter read-back.",
         note="Trusted: Lean kernel; axioms ⊆ {propext, Classical.choice, Quot.sound}; exp/ln laws as hypotheses; f64 rounding of exp(v*DB) test-level.",
     ),
+    "C01": dict(
+        text="Theorems about the composed pipeline model: returned waveforms have fperiod x F samples with F the sum of the state durations; every label "
+             "contributes one duration >= 1 per state on both the speed and the alignment path (so F >= labels x states); MLPG returns one row per frame on "
+             "well-formed streams (with a machine-checked counterexample showing the GV switch must cover every state); a well-formed two-stream configuration "
+             "returns a waveform (it panicked before fix 0c7762d); a vocoder frame is fperiod samples. The composition is tied to Engine::generator/synthesize by "
+             "feeding the dumped Models outputs to the model and comparing durations, all three trajectories (hook) and the waveform on bundled and generated "
+             "voices. Partial: the finiteness clause is about IEEE overflow and is decided by execution (implementation and bit-identical model).",
+        note="Trusted: Lean kernel; axioms ⊆ {propext, Classical.choice, Quot.sound}; tree selection/interpolation enter as dumped inputs (C04/C10 cover them); finiteness is test-level.",
+    ),
+    "C11": dict(
+        text="Theorems: a frame is voiced iff its state's voicing weight exceeds the stream's threshold; raising the threshold only removes voiced frames; unvoiced "
+             "frames carry NODATA in every dimension and NODATA is rendered as period 0 (noise); in the pipeline model stream i reads only msd_threshold[i] and "
+             "gv_weight[i]. That the real Engine::generator wires the indices the same way is decided on every run through the hook: bitwise equality of a stream's "
+             "trajectory under changes to the other streams' settings, and the voiced set against the dumped voicing weights at two thresholds.",
+        note="Trusted: Lean kernel; axioms ⊆ {propext, Classical.choice, Quot.sound}; hook verif_parameters (read-only).",
+    ),
+    "C12": dict(
+        text="Partial. Theorems: GV target = gv_mean x gv_weight with the switch expanded by durations and restricted to voiced frames; no eligible frame gives the "
+             "plain ML solution; a stream without GV ignores the weight. The 20 % and monotonicity clauses are empirical statements about five steps of a "
+             "Newton-like iteration and are decided on every run on the implementation (bundled + perturbed voices, >= 100 eligible frames), while the iteration's "
+             "Lean model is tied bit-for-bit at stage level.",
+        note="Trusted: as C11; no convergence analysis of the GV iteration.",
+    ),
+    "C15": dict(
+        text="Theorems: h = 0 is the identity; apply_additional_half_tone maps every state's static mean to clamp(m + h*ln2/12) and changes nothing else; the voicing "
+             "mask, the durations and every stream other than log-F0 are independent of h in the pipeline model. That log-F0 of every voiced frame moves by exactly "
+             "h*ln2/12 through MLPG and GV is decided on every run through the hook (two runs per case, 1e-6), as is the wiring in Engine::generator.",
+        note="Trusted: as C11; shift-equivariance of MLPG+GV tested, not proved.",
+    ),
+    "C17": dict(
+        text="Theorems over the line-grammar model: splitn yields 1..3 pieces so the expect cannot fire; loading is a total function into ok|error (no panic outcome "
+             "exists in the model); blank lines are ignored anywhere; the error cases and their order; strings without time stamps load exactly as parsed labels with "
+             "unknown times; durations ignore time stamps unless alignment is on. Tied to src/label.rs by 16 corruption kinds (outcome class vs model, never a panic, "
+             "Engine::generator agreeing with Labels::load_from_strings) and by bitwise waveform equality across the four input forms.",
+        note="Trusted: Lean kernel; axioms ⊆ {propext, Classical.choice, Quot.sound}; jlabel and std float parsing are parameters whose verdicts are supplied per case.",
+    ),
 }
